@@ -12,6 +12,32 @@ ROUTE_NAMES = {0: 'PyDBML(str)', 1: 'PyDBML.parse(str)', 2: 'PyDBML(Path)', 3: '
                5: 'parse_file(path str)', 6: 'parse_file(Path)', 7: 'parse_file(open file)'}
 
 
+def other_types_oracle():
+    import io, os, tempfile
+    from pydbml import PyDBML
+    out = []
+    fd, path = tempfile.mkstemp(suffix='.dbml', dir='/var/tmp')
+    try:
+        with os.fdopen(fd, 'w') as fh:
+            fh.write('Table t {\n  id int\n}\n')
+        srcs = [b'Table t {\n id int\n}', path.encode(), bytearray(b'Table t {}'), 12345, 1.5, ['Table t {}'], ('a',), {'a': 1},
+                io.BytesIO(b'Table t {}'), object()]
+        for src in srcs:
+            try:
+                PyDBML(src)
+                got = 'returned'
+            except TypeError:
+                continue
+            except Exception as e:   # noqa
+                got = pyscript.exc_name(e)
+            out.append({'cause': 'oracle', 'clause': 'the constructor does not refuse a source of type %s with TypeError: %s' % (type(src).__name__, got),
+                        'input': {'kind': 'api', 'text': 'PyDBML(%r)' % (src if not isinstance(src, (io.BytesIO,)) else 'BytesIO',)}})
+            break
+    finally:
+        os.unlink(path)
+    return out
+
+
 def codec_oracle(docs):
     import os, tempfile
     from pydbml import PyDBML
@@ -141,6 +167,8 @@ def run(v, tier, st, pr):
     if outs[type_error_job] != 'raise builtins.TypeError':
         fails.append({'cause': 'oracle', 'clause': 'the constructor does not refuse another source type with TypeError: ' + outs[type_error_job],
                       'input': {'kind': 'api', 'text': 'PyDBML(12345)'}})
+    # every other type of source is refused with TypeError (bytes, even bytes naming an existing file, included)
+    fails += other_types_oracle()
     # an open text file is read through the handle: whatever codec the caller opened it with
     fails += codec_oracle(docs[:12] + [('Table "café" {\n  "naïve" int [note: \'é ü ñ\']\n}\n', False)])
     fails.sort(key=lambda f: len(f['input'].get('text', '')))
